@@ -509,6 +509,9 @@ func hasQuant(t *Term) bool {
 // oblQuery renders the assertions specific to one obligation (inside a push scope or a stand-alone file).
 func (vc *VC) oblQuery(o *Obl) string {
 	var sb strings.Builder
+	for _, f := range o.Local {
+		fmt.Fprintf(&sb, "(assert %s)\n", f.String())
+	}
 	fmt.Fprintf(&sb, "(assert %s)\n", o.Guard.String())
 	if o.WantSat {
 		return sb.String()
